@@ -540,8 +540,13 @@ class TimeParameterType(ParameterType, metaclass=ABCMeta):
                 raise ValueError("Expected to get a PolynomialCalibrator for TimeParameterType but "
                                  f"got {self.encoding.default_calibrator}")
             coefficients = self.encoding.default_calibrator.coefficients
-            scale = [c.coefficient for c in coefficients if c.exponent == 1]
-            offset = [c.coefficient for c in coefficients if c.exponent == 0]
+            scale = []
+            offset = []
+            # scale and offset can only stand for a first order polynomial (offset alone reads back as offset + x),
+            # any other polynomial is kept by the DefaultCalibrator of the data encoding alone
+            if sorted(c.exponent for c in coefficients) in ([1], [0, 1]):
+                scale = [c.coefficient for c in coefficients if c.exponent == 1]
+                offset = [c.coefficient for c in coefficients if c.exponent == 0]
 
             if scale:
                 encoding_attrib["scale"] = str(scale[0])
